@@ -9,7 +9,7 @@
   non-negative weights summing to 1) — the property's quantifier.  No bound on string length,
   number of names, list length or number of families anywhere.
 -/
-import Gedcom.Lemmas.JaroSymm
+import Gedcom.Lemmas.ListSymm
 namespace Gedcom.C12
 open Gedcom Gedcom.Sim
 
@@ -153,13 +153,24 @@ theorem list_missing_is_half (xs : List Indi) (o : SimOpts) (h : xs ≠ []) :
   have : xs.length ≠ 0 := fun e => h (List.length_eq_zero_iff.mp e)
   simp [listSimilarity, this]
 
+/-- no two cells of the matrix of pairwise scores tie -/
+def NoScoreTies (xs ys : List Indi) (o : SimOpts) : Prop := ((matrix xs ys o).map (·.sim)).Nodup
+
+instance (xs ys : List Indi) (o : SimOpts) : Decidable (NoScoreTies xs ys o) := by
+  unfold NoScoreTies; exact inferInstance
+
 /-
-  Not proved: `list_symm` (operand order of `listSimilarity`), hence the spouses / children
-  components of the surrounding similarity.  With the symmetric scores above the two runs sort
-  the same multiset of cells; they can differ only in the order of equal scores, and cells whose
-  order differs share neither a row nor a column.  The harness checks list and weighted symmetry
-  on the implementation for every generated case (within 1e-12: summation order).
+  Full statement (not proved, not refuted): `list_symm` without the guard.  With ties the two
+  runs sort equal scores in different orders; cells whose relative order differs share neither a
+  row nor a column, which suggests the sum is unaffected, but that exchange argument is not
+  formalised.  The harness checks list and weighted symmetry on the implementation for every
+  generated case, ties included (within 1e-12: summation order).
 -/
+
+/-- list similarity does not depend on the operand order when no two candidate pairs tie on
+    score (lists of any length) -/
+theorem list_symm_partial (xs ys : List Indi) (o : SimOpts) (h : NoScoreTies xs ys o) :
+    listSimilarity xs ys o = listSimilarity ys xs o := listSimilarity_symm' xs ys o h
 
 theorem family_bounds (f g : Fam) (o : SimOpts) (ho : o.Valid) :
     0 ≤ familySimilarity f g o ∧ familySimilarity f g o ≤ 1 := familySimilarity_bounds' f g o ho
@@ -186,6 +197,16 @@ theorem family_missing_is_half (g : Fam) (o : SimOpts) :
     obligation on the regenerated defaults) -/
 theorem surrounding_bounds (x y : Surround) (o : SimOpts) (force : Bool) (ho : o.Valid) :
     (surroundingSimilarity x y o force).WF := surroundingSimilarity_wf x y o force ho
+
+/-- all four components (hence the weighted score) do not depend on the operand order when neither
+    the spouses' nor the children's score matrix has ties -/
+theorem surrounding_symm_partial (x y : Surround) (o : SimOpts) (force : Bool)
+    (hs : NoScoreTies x.spouses y.spouses o) (hc : NoScoreTies x.children y.children o) :
+    surroundingSimilarity x y o force = surroundingSimilarity y x o force := by
+  unfold surroundingSimilarity
+  simp only
+  rw [indiSimilarity_symm x.self y.self o, parents_symm x.parents y.parents o,
+    listSimilarity_symm' x.spouses y.spouses o hs, listSimilarity_symm' x.children y.children o hc]
 
 theorem default_options_valid : defaultOpts.Valid := defaultOpts_valid
 
